@@ -94,7 +94,7 @@ Qed.
 Lemma sg_call_hdrs c d rd p hdr t rw' f :
   sg_cin c d rd p hdr REQ_HEADERS (Some REQ_HEADERS) (Some H_REQUEST_HEADER_DATA) t ->
   sg_hlog g sg_th0 fs hdr t p (skipn rd d ++ rw') ->
-  exists cF rc, rq_loop cb g (6 + f) false c = (cF, rc) /\ sg_post m u pr (wr_block_wire fs ++ [CR; LF]) (sg_hlog g sg_th0 fs) sg_fin cF rw'.
+  exists cF rc, rq_loop cb g (6 + f) false c = (cF, rc) /\ sg_post m u pr (wr_block_wire fs ++ [CR; LF]) (sg_hlog g sg_th0 fs) sg_fin (fun _ _ => False) cF rw'.
 Proof.
   intros H (fs_done & fs_rem & q & Efs & Hfl & Hpq & Hq & Hw & Hfit).
   assert (Ok : forallb wr_field_ok fs_rem = true).
@@ -109,7 +109,7 @@ Proof.
     destruct (sg_exit_buffer cb g Hcb c' d p' hdr' _ _ t' HA1 Lim) as (cF & EF & HF).
     exists cF, c_HTP_STREAM_DATA. split.
     + change (6 + f)%nat with (S (5 + f)). apply sg_rq_loop_inl. unfold rq_iter. rewrite Es, Ef, EA, EF. reflexivity.
-    + left. split; [exact HA3|]. right. exists p', hdr', t'. split; [exact HF|exact HA2].
+    + left. split; [exact HA3|]. right. left. exists p', hdr', t'. split; [exact HF|exact HA2].
   - destruct HB as (c' & EB & HB1 & HB2). rewrite <- Efs in HB1. rewrite <- Ef in EB.
     destruct (sg_tail c c' d (1 + f) Es EB HB1) as (cF & rc & E & T).
     exists cF, rc. split; [exact E|]. right. split; [exact HB2|exact T].
@@ -123,7 +123,8 @@ Lemma sg_run_all_chunks (chunks : list bytes) :
   exists fl, c_txs (fst (cp_run cb g connp_new (OpOpen :: map OpReqData chunks))) = [Some (sg_tfin fl)].
 Proof.
   intros Hlim0 Hfit0 Hall Hc.
-  apply (sg_all_chunks cb g Hcb Hspace m u pr Wl Hlim0 (wr_block_wire fs ++ [CR; LF]) (sg_hlog g sg_th0 fs) sg_fin); [|exact sg_call_hdrs|exact Hall|exact Hc].
+  apply (sg_all_chunks cb g Hcb Hspace m u pr Wl Hlim0 (wr_block_wire fs ++ [CR; LF]) (sg_hlog g sg_th0 fs) sg_fin (fun _ _ => False));
+    [|intros c rw []|intros c rw x rw' []|exact sg_call_hdrs|exact Hall|exact Hc].
   exists [], fs, (sg_next fs). split; [reflexivity|]. split; [reflexivity|]. split; [reflexivity|]. split; [apply sg_next_ne|].
   split; [apply sg_wire_split|exact Hfit0].
 Qed.
